@@ -41,7 +41,9 @@ mod tree;
 use common::Sink;
 
 fn main() {
-    std::panic::set_hook(Box::new(|_| {}));
+    if std::env::var("XOTHARNESS_SHOW_PANICS").is_err() {
+        std::panic::set_hook(Box::new(|_| {}));
+    }
     let args: Vec<String> = std::env::args().collect();
     if args.len() < 5 {
         eprintln!("usage: xotharness <suite> <seed> <count> <tier>");
